@@ -78,8 +78,10 @@ Section Uninhabited.
       apply andb_true_iff in Hp. destruct Hp as [Hno Hu].
       assert (Hd : forall j, de f' (p_ty p) j = None) by (intros j; apply (IH _ Hu)).
       assert (Hm : missing T (de f') (default_val T f') p = None).
-      { unfold missing. rewrite Es. unfold is_option in Hno.
-        destruct (get_det T (p_ty p)) as [[]|]; try reflexivity. discriminate Hno. }
+      { (* an absent required member is taken only by a type that takes null,
+           and an uninhabited type takes nothing *)
+        unfold missing. rewrite Es. destruct (get_det T (p_ty p)); [|reflexivity].
+        rewrite Hd. reflexivity. }
       unfold de_struct_body.
       destruct v as [| | | |s|l|kvs]; try reflexivity.
       + destruct (flat_props props); [|reflexivity].
